@@ -150,6 +150,9 @@ class SwimPumpDevice(SwitchDevice):
         self.speed(100)
 
     def off(self):
+        # Always switch the relay off. The cached speed might not reflect the relay state if the
+        # DAC could not be written when the pump was started.
+        super().off()
         self.speed(0)
 
     def speed(self, value):
